@@ -97,6 +97,9 @@ class Report:
             n = sum(1 for m in merged.values() if m['rule'] == rule or m['rule'].startswith(rule + ':'))
             if n < minimum:
                 broken.append('rule %s matched %d instance(s), floor is %d' % (rule, n, minimum))
+        # shape rules that did not recognise a form but were not allowed to stop the other rules (rep.defer_broken): they
+        # count like a broken floor - analysis broken unless something else reports a violation
+        broken += list(getattr(self, 'deferred_broken', []))
         fails = [m for m in merged.values() if not m['ok']]
         if broken and not fails:
             for b in broken:
@@ -137,6 +140,12 @@ class Report:
             print('VIOLATION property=%s replay=%s' % (self.pid, path))
         self.write_evidence(merged, violations, knowns, [])
         return 1 if violations else 0
+
+    def defer_broken(self, msg):
+        """an AnalysisBroken condition of one rule that must not keep the remaining rules from running"""
+        if not hasattr(self, 'deferred_broken'):
+            self.deferred_broken = []
+        self.deferred_broken.append(str(msg))
 
     def write_evidence(self, merged, violations, knowns, broken):
         insts = list(merged.values())
